@@ -170,21 +170,29 @@ class Channel:
         await self._rt()
         return spec.Basic.Ack() if ok or not mandatory else spec.Basic.Return()
 
+    def _tag_range(self, delivery_tag, multiple):
+        """AMQP: with multiple=True the tag stands for every unsettled delivery of this channel up to and including it"""
+        if not multiple:
+            return [delivery_tag]
+        return sorted(t for t in self.unacked if t <= delivery_tag)
+
     async def basic_ack(self, delivery_tag, multiple=False, **kw):
         await self._rt()
-        self._settle(delivery_tag)
+        for t in self._tag_range(delivery_tag, multiple):
+            self._settle(t)
         self.srv.pump()
 
     async def basic_nack(self, delivery_tag, multiple=False, requeue=True, **kw):
         await self._rt()
-        ent = self._settle(delivery_tag)
-        if ent is not None:
-            _, qname, m = ent
-            if requeue:
-                m.redelivered = True
-                self.srv.put(qname, m, front=True)
-            else:
-                self.srv.dead_letter(qname, m)
+        for t in reversed(self._tag_range(delivery_tag, multiple)):
+            ent = self._settle(t)
+            if ent is not None:
+                _, qname, m = ent
+                if requeue:
+                    m.redelivered = True
+                    self.srv.put(qname, m, front=True)
+                else:
+                    self.srv.dead_letter(qname, m)
         self.srv.pump()
 
     async def basic_reject(self, delivery_tag, requeue=True, **kw):
